@@ -363,7 +363,22 @@ class Hooks:
         if is_event:
             with sim.node:
                 L = item.event.listener
-            t.pending.append((ms, t.items[-1][2], self.info_for(sim, t, L), len(t.items) - 1))
+            li_ = self.info_for(sim, t, L)
+            if t.call["call"] == "visibility" and li_.cls not in ("StationSignalListener", "StationMaxListener", "StationMaskListener"):
+                # "a station visibility stream consists of exactly the above-horizon sample points plus the AOS/LOS/MAX events":
+                # what another listener adds to the computation is only let through above the horizon
+                with sim.node:
+                    pv = world.vec(item.copy(form="cartesian", frame=sim.stations[t.station]))
+                phi = M.topo(pv)["phi"]
+                ctx.checks += 1
+                ctx.probe("visibility_foreign_event_elevation_checked")
+                if phi < -1e-7:
+                    ctx.violate(
+                        "visibility-stream",
+                        sim.fp(t, kind="below_horizon_event_yielded", listener=li_.cls),
+                        f"task {t.tid}: visibility() yielded the event '{t.items[-1][2]}' of a {li_.cls} at epoch{ms:+.3f} ms while the satellite is {math.degrees(phi):.4f} deg below the horizon of station {t.station} (only AOS / LOS / MAX belong to the stream there)",
+                    )
+            t.pending.append((ms, t.items[-1][2], li_, len(t.items) - 1))
             return
         # a sample: close the interval (previous range date, this range date)
         k = t.sample_idx[-1]
